@@ -1474,6 +1474,14 @@ def tsig_cases(ctx, rng, n):
         msgs = msgs_of(chunks, rdt)
         k = len(msgs)
         r = rng.random()
+        if rng.random() < 0.12:
+            # the up-to-date answer, signed or not (the check after the message loop)
+            sg = rng.randrange(2)
+            z = chain[-1]
+            m1 = msgs_of([[soa_rec(z)]], IXFR)[0] + [sg]
+            yield ("tsig-uptodate-signed" if sg else "tsig-uptodate-unsigned"), \
+                [11, zk, rel, IXFR, soa_id(z) & 0xFFFFFFFF, zdump(z), [m1], [VALID if sg else MUSTERR, zdump(z)]]
+            continue
         if r < 0.4:
             signed, kind, tag = [1] * k, "tsig-all-signed", VALID
         elif r < 0.7 or k < 2:
